@@ -1,0 +1,128 @@
+//go:build verif
+
+// Verification hooks (add-only, compiled only with -tags verif). They expose
+// the unexported APK signing block writer, block locator, the length-prefixed
+// serializer with the types of structs.go, and the signature type table to the
+// out-of-tree correspondence harness in /verif (format unit FmtAPK); no
+// existing behaviour is changed.
+package apk
+
+import (
+	"os"
+)
+
+// VerifMakeSigBlock calls makeSigBlock.
+func VerifMakeSigBlock(sblob []byte) []byte { return makeSigBlock(sblob) }
+
+// VerifGetSigBlock calls getSigBlock and returns the ID-value pair region;
+// signed is false when there is nothing between the last entry and the
+// central directory.
+func VerifGetSigBlock(f *os.File) (pairs []byte, signed bool, err error) {
+	_, block, err := getSigBlock(f)
+	return block, block != nil, err
+}
+
+// VerifAttr mirrors apkAttribute / apkDigest / apkSignature.
+type VerifAttr struct {
+	ID    uint32
+	Value []byte
+}
+
+// VerifSigner mirrors apkSigner with its SignedData parsed.
+type VerifSigner struct {
+	SignedData   []byte // raw, including the length prefix
+	Digests      []VerifAttr
+	Certificates [][]byte
+	Attributes   []VerifAttr
+	Signatures   []VerifAttr
+	PublicKey    []byte
+}
+
+func verifAttrsIn(l []VerifAttr) []apkAttribute {
+	out := make([]apkAttribute, len(l))
+	for i, a := range l {
+		out[i] = apkAttribute{ID: a.ID, Value: a.Value}
+	}
+	return out
+}
+
+func verifAttrsOut(l []apkAttribute) []VerifAttr {
+	out := make([]VerifAttr, len(l))
+	for i, a := range l {
+		out[i] = VerifAttr{ID: a.ID, Value: a.Value}
+	}
+	return out
+}
+
+// VerifMarshalSignedData calls marshal on an apkSignedData value.
+func VerifMarshalSignedData(digests []VerifAttr, certs [][]byte, attrs []VerifAttr) ([]byte, error) {
+	sd := apkSignedData{Certificates: certs, Attributes: verifAttrsIn(attrs)}
+	for _, d := range digests {
+		sd.Digests = append(sd.Digests, apkDigest{ID: d.ID, Value: d.Value})
+	}
+	raw, err := marshal(sd)
+	return []byte(raw), err
+}
+
+// VerifMarshalSigners calls marshal on a []apkSigner value; SignedData is
+// written as given (it is a raw item).
+func VerifMarshalSigners(in []VerifSigner) ([]byte, error) {
+	list := make([]apkSigner, len(in))
+	for i, s := range in {
+		list[i] = apkSigner{SignedData: apkRaw(s.SignedData), PublicKey: s.PublicKey}
+		for _, g := range s.Signatures {
+			list[i].Signatures = append(list[i].Signatures, apkSignature{ID: g.ID, Value: g.Value})
+		}
+	}
+	raw, err := marshal(list)
+	return []byte(raw), err
+}
+
+// VerifUnmarshalSignersFull calls unmarshal with the type of the v2 signer
+// list and then with the type of the signed data of each signer. sdErr holds
+// the error of the second step per signer ("" when it parsed).
+func VerifUnmarshalSignersFull(blob []byte) (out []VerifSigner, sdErr []string, err error) {
+	var signerList []apkSigner
+	if err := unmarshal(blob, &signerList); err != nil {
+		return nil, nil, err
+	}
+	for _, s := range signerList {
+		v := VerifSigner{SignedData: []byte(s.SignedData), PublicKey: s.PublicKey}
+		for _, g := range s.Signatures {
+			v.Signatures = append(v.Signatures, VerifAttr{ID: g.ID, Value: g.Value})
+		}
+		var sd apkSignedData
+		e := ""
+		if err := unmarshal(s.SignedData, &sd); err != nil {
+			e = err.Error()
+		} else {
+			for _, d := range sd.Digests {
+				v.Digests = append(v.Digests, VerifAttr{ID: d.ID, Value: d.Value})
+			}
+			v.Certificates = sd.Certificates
+			v.Attributes = verifAttrsOut(sd.Attributes)
+		}
+		out = append(out, v)
+		sdErr = append(sdErr, e)
+	}
+	return out, sdErr, nil
+}
+
+// VerifSigTypes returns the signature type table: id, hash, key algorithm, pss.
+func VerifSigTypes() [][4]int {
+	out := make([][4]int, len(sigTypes))
+	for i, s := range sigTypes {
+		p := 0
+		if s.pss {
+			p = 1
+		}
+		out[i] = [4]int{int(s.id), int(s.hash), int(s.alg), p}
+	}
+	return out
+}
+
+// VerifSigTypeByID calls sigTypeByID.
+func VerifSigTypeByID(id uint32) (hash int, alg int, pss bool, err error) {
+	st, err := sigTypeByID(id)
+	return int(st.hash), int(st.alg), st.pss, err
+}
